@@ -54,6 +54,20 @@ Hardening pass 2 (HARDENING2.md).
                    Q-polynomial sequences of other orders, the same routines under precision 32, polar grids edited in place; then
                    a surface is built and traced and judged as usual
 
+Hardening pass 3 (HARDENING3.md).
+  K batch orders    on a concave conic (sag domain of finite radius): a ray along the axis (converges in the first Newton iteration), slow
+                   skew rays, a ray whose vertex-plane crossing is outside the sag domain (NaN from iteration 0) and a ray that crosses
+                   the vertex plane inside the domain but leaves it (NaN only from iteration >= 1; labelled by a Newton iteration
+                   written out in the harness) -- every permutation of a 4-ray and of a 5-ray batch, sampled orders of 3, 6, 7, 8 rays,
+                   and a batch of 400 (thorough 4000) rays; every hitting ray equals its solo trace through intersect and raytrace
+  G scaled systems  every length of a one- or two-surface system (curvature radius, decentre, Q-type normalisation radius and
+                   coefficients, vertex, ray origins) times 1e-3, 1e-2, 1e2, 1e3: intersections scale, directions are identical, and the
+                   scaled system is judged by the ordinary pass oracle
+  H special rays    exactly along the axis (from whole distances, from the vertex plane itself, from 1e-3 and 1e3 away), axis-parallel
+                   exactly on the coordinate axes / diagonals at the edge of the aperture, meridional rays with one direction cosine
+                   exactly 0, normal incidence away from the vertex (pass oracle; keys carry /special:axis-edge-normal-incidence);
+                   incidence of 75..89.9 degrees on a plane mirror in any frame, decided by the closed form
+
 Violation keys are `C19/<stage>/<clause>/<class labels>`; the class labels are computed from the failing rays
 (normal class: axial / sloped / unit; frame class; surface family; NaN class by geometric predicate).
 """
@@ -78,7 +92,10 @@ RULE = ('one case = one prescription (1-4 surfaces) + one ray bundle; surface fa
         'batches of 1, 2, 3), of the trace arguments (surfaces container, wvl, n_ambient, call syntax) and of the Surface constructor '
         'arguments (typ spellings, P forms, R forms), plus single-vs-batch forms of intersect / reflect / refract / the frame '
         'transforms; eval surfaces: 3 positions x 4 frames x 3 families; mixed batches: 5 families x 3 interactions x 1..20 hitting '
-        'and 1..5 untraceable rays; foreign traffic: 4 kinds x 5 families')
+        'and 1..5 untraceable rays; foreign traffic: 4 kinds x 5 families.  Hardening pass 3: batch orders (per concave conic 24 + 120 '
+        'permutations and 24..160 sampled orders of batches of 3..8 rays drawn from {axis, slow, NaN at iteration 0, NaN from iteration >= 1}, '
+        'one large random batch; non-trivial when a hitting ray was compared with its solo trace); scaled systems (60 class combinations x 4 '
+        'factors x one / two surfaces); special rays (60 class combinations: ~30 special rays each, plus 12 grazing rays per plane mirror)')
 ASSUMPTIONS = ['the surface is the graph z = sag(x,y) of the library\'s own sag routine in the surface frame; for plane / '
                'sphere / conic / off-axis conic that sag is additionally required to equal the textbook conic formula '
                'c s/(1+sqrt(1-(1+k)c^2 s)), s=(x+dx)^2+(y+dy)^2',
@@ -102,14 +119,24 @@ ASSUMPTIONS = ['the surface is the graph z = sag(x,y) of the library\'s own sag 
                'direction nor the rays the other surfaces receive; a float32 wavelength makes the index callable of the harness single precision (1e-3 for '
                'that form only)',
                'a matrix make_rotation_matrix returned (and the R a Surface stores) belongs to the caller: editing it in place must not '
-               'change Surfaces built later from the same angles']
+               'change Surfaces built later from the same angles',
+               'batch orders: which rays are NaN from which Newton iteration is a *label* obtained from a Newton iteration written out in '
+               'the harness with the library\'s sag_normal; the verdict only compares each hitting ray of a batch with the same ray traced '
+               'alone by the same routine (1e-9 x scale), rays lost when alone are excluded and counted',
+               'scaled systems: ray tracing is covariant under a change of the unit of length; the law is judged on rays that are finite in '
+               'both systems (a ray finite in one and lost in the other -- the known r = 0 singularity of Q-type surfaces is hit exactly in '
+               'one system and missed by 1e-16 in the other -- is left to the pass oracle of the scaled system); tolerance 1e-9 x scale x factor',
+               'grazing incidence stays outside the pass oracle (cos i < 0.3 excluded, as before); for a plane mirror the intersection and the '
+               'mirrored direction have a closed form in the surface frame (own rotation algebra), which decides 75..89.9 degrees at 1e-9 x '
+               '(scale incl. path length)']
 REQUIRED = ['hit.on-ray', 'hit.on-surface', 'out.unit-length', 'reflect.law', 'refract.snell', 'refract.coplanar',
             'refract.side', 'trace.finite', 'surface.sag-definition', 'rigid.to_local', 'rigid.to_global',
             'rigid.roundtrip', 'rigid.R-proper', 'direct.intersect', 'direct.reflect', 'direct.refract',
             'multi-surface.pass', 'history.vs-fresh-surface', 'repeat.same-rays', 'repeat.direct', 'repeat.shared-P',
             'precision32.cases', 'float32-rays.cases', 'precision32-then-64.cases', 'regime.long-prescription',
             'regime.extreme-shape', 'form.rays', 'form.ray-dtypes', 'form.call-syntax', 'form.surface-args', 'form.direct', 'eval.pass',
-            'eval.unchanged', 'eval.transparent', 'batch.vs-solo', 'foreign.cases']
+            'eval.unchanged', 'eval.transparent', 'batch.vs-solo', 'foreign.cases',
+            'batch.order', 'batch.large', 'scale.system', 'special.rays', 'special.grazing-plane-mirror']
 
 CTX = None
 WVL = 0.6328
@@ -1916,6 +1943,375 @@ def mixed_batch_case(ctx, idx, family, way):
     ctx.case(desc, nontrivial=decided > 0)
 
 
+# ================================================================================================ hardening pass 3 (HARDENING3.md)
+# K  batches mixing good and bad rays in every relative order: {ray along the axis (converges in the first Newton iteration), slow
+#    skew rays, a ray whose vertex-plane crossing is outside the sag domain (NaN in iteration 0), a ray that crosses the vertex plane
+#    inside the domain but leaves it (NaN only from iteration >= 1)} -- all permutations of 4- and 5-ray batches, sampled permutations of
+#    6..8 rays, and large random batches; every ray that hits equals its solo trace, through intersect and through raytrace.
+# G  the same system in other units (every length x 1e-3 ... 1e3): intersections scale, directions are identical.
+# H  rays exactly along the axis (also starting on the vertex plane), exactly on the coordinate axes at the aperture edge, meridional
+#    rays with an exactly zero direction cosine, normal incidence away from the vertex; grazing incidence (75..89.9 deg) on a plane
+#    mirror, decided by the closed form.
+def _newton_profile(surf, Pl, Sl, maxiter=40):
+    """Labels only (never a verdict): per ray the iteration in which a Newton iteration written out here (with the library's
+    sag_normal) converges (-1: never) and the first iteration whose iterate is NaN (-1: never)."""
+    Pl = np.asarray(Pl, dtype=float); Sl = np.asarray(Sl, dtype=float)
+    n = len(Pl)
+    conv = -np.ones(n, dtype=int); nan_at = -np.ones(n, dtype=int)
+    with np.errstate(all='ignore'):
+        P1 = Pl + (-Pl[:, 2] / Sl[:, 2])[:, None] * Sl
+        sj = np.zeros(n)
+        for j in range(maxiter):
+            Pj = P1 + sj[:, None] * Sl
+            z, r = surf.sag_normal(Pj[:, 0], Pj[:, 1])
+            F = Pj[:, 2] - np.asarray(z, dtype=float)
+            Fp = np.einsum('ij,ij->i', Sl, np.asarray(r, dtype=float))
+            s1 = sj - F / Fp
+            open_ = (conv < 0) & (nan_at < 0)
+            nan_at[open_ & ~np.isfinite(s1)] = j
+            open_ = (conv < 0) & (nan_at < 0)
+            conv[open_ & (np.abs(s1 - sj) < 2.3e-14 * np.maximum(1, np.abs(s1)))] = j
+            sj = np.where((conv >= 0) & (conv < j), sj, s1)
+    return conv, nan_at
+
+
+def batch_order_case(ctx, idx):
+    import itertools
+    from prysm.x.raytracing import spencer_and_murty as sm
+    rng = ctx.rng('batch-order', idx)
+    way = ['refl', 'refr-in'][idx % 2]
+    Rc = float(np.round(rng.uniform(8, 60), 1))
+    k = [0.0, float(np.round(rng.uniform(-0.8, 1.0), 2)), 0.0][idx % 3]
+    Rdom = Rc / math.sqrt(1.0 + k)
+    P_arg, R_arg = rand_frame(rng, FORMS[idx % 4], gentle=True)
+    spec = Spec('conic', 'refl' if way == 'refl' else 'refr', P_arg, R_arg, 1.52 if way != 'refl' else None,
+                c=1.0 / Rc, k=k, a=float(np.round(0.55 * Rdom, 3)), ctor='conic' if idx % 5 else 'sphere')
+    if spec.par['ctor'] == 'sphere':
+        spec.par['k'] = 0.0
+        Rdom = Rc
+    desc = {'wl': 'batch-order', 'surface': spec.describe(), 'sub': idx, 'class': f'batch-order|conic|{way}|{FORMS[idx % 4]}'}
+    if lib_call(ctx, 'C19/build/conic', desc, build, spec) is _RAISED or not check_R(ctx, spec, desc):
+        ctx.case(desc)
+        return
+    sag = lib_sag(spec)
+    # ---- the pool, in the surface frame
+    Pl, Sl, C, _ = local_bundle(rng, spec, 2, ctx.pick(40, 200), sag)
+    conv, nan_at = _newton_profile(spec.surf, Pl, Sl)
+    slow = np.nonzero((conv >= 2) & (C >= 2))[0]
+    axis = np.nonzero((C == 0) & (conv == 0))[0]
+    n_try = 60
+    th = rng.uniform(0, 2 * np.pi, n_try)
+    rr_ = Rdom * rng.uniform(0.80, 0.985, n_try)
+    el = np.radians(rng.uniform(35, 82, n_try))
+    d_ = np.stack([np.sin(el) * np.cos(th), np.sin(el) * np.sin(th), np.cos(el)], 1)
+    p0 = np.stack([rr_ * np.cos(th), rr_ * np.sin(th), np.zeros(n_try)], 1)
+    Pl_late, Sl_late = p0 - (0.1 * Rdom) * d_, d_
+    c2, n2_ = _newton_profile(spec.surf, Pl_late, Sl_late)
+    late = np.nonzero((n2_ >= 1) & (c2 < 0))[0]
+    th = rng.uniform(0, 2 * np.pi, 6)
+    rr_ = Rdom * rng.uniform(1.1, 2.0, 6)
+    Pl_early = np.stack([rr_ * np.cos(th), rr_ * np.sin(th), -rng.uniform(5, 30, 6)], 1)
+    Sl_early = np.tile([0.0, 0.0, 1.0], (6, 1))
+    if len(slow) < 3 or len(axis) < 1 or len(late) < 2:
+        ctx.skip('batch order: the pool lacks a slow / axis / late-NaN ray for this surface (not generated)')
+        ctx.case(desc, nontrivial=False)
+        return
+    desc['late_nan_first_iteration'] = sorted(set(int(v) for v in n2_[late]))[:6]
+    desc['slow_ray_iterations'] = sorted(set(int(v) for v in conv[slow]))[:6]
+
+    def ray(kind, j):
+        if kind == 'A':
+            return Pl[axis[0]] + np.array([0.0, 0.0, -float(j)]), Sl[axis[0]]
+        if kind == 'S':
+            return Pl[slow[j % len(slow)]], Sl[slow[j % len(slow)]]
+        if kind == 'L':
+            return Pl_late[late[j % len(late)]], Sl_late[late[j % len(late)]]
+        return Pl_early[j % 6], Sl_early[j % 6]
+
+    solo_cache = {}
+    n_amb = 1.0
+    sc = max(1.0, float(np.max(np.abs(spec.V))), 3 * Rdom)
+    decided = [0]
+
+    def solo(routine, key, pl, sl, pg, sg):
+        if (routine, key) not in solo_cache:
+            with np.errstate(all='ignore'):
+                if routine == 'intersect':
+                    out = lib_call(ctx, 'C19/intersect/batch-order', desc, sm.intersect, pl[None, :].copy(), sl[None, :].copy(), spec.surf.sag_normal)
+                    solo_cache[(routine, key)] = None if out is _RAISED else (np.asarray(out[0], dtype=float)[0], np.asarray(out[1], dtype=float)[0])
+                else:
+                    out = lib_call(ctx, 'C19/raytrace/batch-order', desc, sm.raytrace, [spec.surf], pg[None, :].copy(), sg[None, :].copy(), WVL, n_ambient=n_amb)
+                    solo_cache[(routine, key)] = None if out is _RAISED else (np.asarray(out[0], dtype=float)[1, 0], np.asarray(out[1], dtype=float)[1, 0])
+        return solo_cache[(routine, key)]
+
+    def judge(members, order, routines, label):
+        """members: list of (kind, j); order: permutation of range(len(members))."""
+        rows = [members[q] for q in order]
+        pl = np.array([ray(*m)[0] for m in rows]); sl = np.array([ray(*m)[1] for m in rows])
+        pg, sg = rp.to_global(pl, sl, spec.V, spec.R)
+        for routine in routines:
+            with np.errstate(all='ignore'):
+                if routine == 'intersect':
+                    out = lib_call(ctx, 'C19/intersect/batch-order', desc, sm.intersect, pl.copy(), sl.copy(), spec.surf.sag_normal)
+                    got = None if out is _RAISED else (np.asarray(out[0], dtype=float), np.asarray(out[1], dtype=float))
+                else:
+                    out = lib_call(ctx, 'C19/raytrace/batch-order', desc, sm.raytrace, [spec.surf], pg.copy(), sg.copy(), WVL, n_ambient=n_amb)
+                    got = None if out is _RAISED else (np.asarray(out[0], dtype=float)[1], np.asarray(out[1], dtype=float)[1])
+            if got is None:
+                continue
+            for row, m in enumerate(rows):
+                if m[0] not in ('A', 'S'):
+                    continue
+                ref = solo(routine, m, pl[row], sl[row], pg[row], sg[row])
+                if ref is None or not (np.isfinite(ref[0]).all() and np.isfinite(ref[1]).all()):
+                    ctx.skip('batch order: the ray is lost when traced alone too (decided by the pass oracle, not by this law)')
+                    continue
+                decided[0] += 1
+                d2 = dict(desc, batch=[f'{a_}{b_}' for a_, b_ in rows], row=row, workload=label)
+                vs = max(1.0, float(np.max(np.abs(ref[1]))))
+                ok = ctx.close('batch.order', got[0][row], ref[0], f'C19/{routine}/batch-order/hitting-ray-differs-from-solo-trace',
+                               'a ray that hits the surface is traced to another point (or lost) depending on which other rays share '
+                               'its batch and in which order', d2, rtol=0, atol=1e-9 * sc)
+                ok2 = ctx.close('batch.order', got[1][row], ref[1], f'C19/{routine}/batch-order/hitting-ray-differs-from-solo-trace',
+                                'a ray that hits the surface gets another normal / outgoing direction depending on which other rays '
+                                'share its batch and in which order', d2, rtol=0, atol=1e-9 * vs)
+                if not (ok and ok2):
+                    return False
+        return True
+
+    four = [('A', 5), ('S', 0), ('S', 1), ('L', 0)]
+    five = [('A', 7), ('S', 2), ('E', 0), ('L', 1), ('S', 0)]
+    fine = True
+    for order in itertools.permutations(range(4)):
+        fine = fine and judge(four, order, ('intersect', 'raytrace'), 'all-permutations-of-4')
+        if not fine:
+            break
+    if fine:
+        perms5 = list(itertools.permutations(range(5)))
+        pick5 = set(int(v) for v in rng.choice(len(perms5), size=ctx.pick(24, 120), replace=False))
+        for q, order in enumerate(perms5):
+            fine = fine and judge(five, order, ('intersect', 'raytrace') if q in pick5 else ('intersect',), 'all-permutations-of-5')
+            if not fine:
+                break
+    if fine:
+        for nb in (3, 6, 7, 8):
+            for rep in range(ctx.pick(6, 40)):
+                members = [('A', int(rng.integers(1, 40)))] if nb > 3 or rng.integers(2) else []
+                while len(members) < nb:
+                    kind = 'SSLLE'[int(rng.integers(5))]
+                    members.append((kind, int(rng.integers(0, 12))))
+                order = [int(v) for v in rng.permutation(nb)]
+                if not judge(members, order, ('intersect', 'raytrace'), f'random-order-of-{nb}'):
+                    fine = False
+                    break
+            if not fine:
+                break
+    # ---- a large random batch: hitting rays against the trace of the hitting rays alone and a few solo traces
+    if fine:
+        nbig = ctx.pick(400, 4000)
+        kinds = rng.choice(np.array(['S', 'S', 'S', 'A', 'L', 'L', 'E']), size=nbig)
+        members = [(str(kd), int(rng.integers(0, 10 ** 6))) for kd in kinds]
+        pl = np.array([ray(*m)[0] for m in members]); sl = np.array([ray(*m)[1] for m in members])
+        good = np.array([m[0] in ('A', 'S') for m in members])
+        with np.errstate(all='ignore'):
+            full = lib_call(ctx, 'C19/intersect/batch-order', desc, sm.intersect, pl.copy(), sl.copy(), spec.surf.sag_normal)
+            only = lib_call(ctx, 'C19/intersect/batch-order', desc, sm.intersect, pl[good].copy(), sl[good].copy(), spec.surf.sag_normal)
+        if full is not _RAISED and only is not _RAISED:
+            ref_ok = np.isfinite(np.asarray(only[0], dtype=float)).all(1)
+            d2 = dict(desc, workload='large-random-batch', n=int(nbig))
+            ctx.close('batch.large', np.asarray(full[0], dtype=float)[good][ref_ok], np.asarray(only[0], dtype=float)[ref_ok],
+                      'C19/intersect/batch-order/hitting-ray-differs-from-solo-trace', 'in a large batch that also holds untraceable rays the '
+                      'hitting rays are traced to other points than in a batch of the hitting rays alone', d2, rtol=0, atol=1e-9 * sc)
+            pg, sg = rp.to_global(pl, sl, spec.V, spec.R)
+            with np.errstate(all='ignore'):
+                fullr = lib_call(ctx, 'C19/raytrace/batch-order', desc, sm.raytrace, [spec.surf], pg.copy(), sg.copy(), WVL, n_ambient=n_amb)
+                onlyr = lib_call(ctx, 'C19/raytrace/batch-order', desc, sm.raytrace, [spec.surf], pg[good].copy(), sg[good].copy(), WVL, n_ambient=n_amb)
+            if fullr is not _RAISED and onlyr is not _RAISED:
+                okr = np.isfinite(np.asarray(onlyr[0], dtype=float)[1]).all(1) & np.isfinite(np.asarray(onlyr[1], dtype=float)[1]).all(1)
+                ctx.close('batch.large', np.asarray(fullr[0], dtype=float)[1][good][okr], np.asarray(onlyr[0], dtype=float)[1][okr],
+                          'C19/raytrace/batch-order/hitting-ray-differs-from-solo-trace', 'in a large batch that also holds untraceable rays '
+                          'the hitting rays are traced to other points than in a batch of the hitting rays alone', d2, rtol=0, atol=1e-9 * sc)
+                ctx.close('batch.large', np.asarray(fullr[1], dtype=float)[1][good][okr], np.asarray(onlyr[1], dtype=float)[1][okr],
+                          'C19/raytrace/batch-order/hitting-ray-differs-from-solo-trace', 'in a large batch that also holds untraceable rays '
+                          'the hitting rays leave in other directions than in a batch of the hitting rays alone', d2, rtol=0, atol=1e-9)
+                # the hitting rays of the large batch, judged by the pass oracle as well
+                check_pass(ctx, spec, pg[good], sg[good], np.asarray(fullr[0], dtype=float)[1][good], np.asarray(fullr[1], dtype=float)[1][good],
+                           n_amb, d2)
+    ctx.case(desc, nontrivial=decided[0] > 0)
+
+
+SYSTEM_SCALES = [1e-3, 1e-2, 1e2, 1e3]
+
+
+def _scaled_spec(spec, f):
+    par = {}
+    for k_, v in spec.par.items():
+        if k_ == 'c':
+            par[k_] = v / f
+        elif k_ in ('a', 'dx', 'dy', 'nr'):
+            par[k_] = v * f
+        elif k_ == 'cm0':
+            par[k_] = [c_ * f for c_ in v]
+        elif k_ in ('ams', 'bms'):
+            par[k_] = [[c_ * f for c_ in row] for row in v]
+        else:
+            par[k_] = v
+    P = spec.P_arg
+    P2 = float(P) * f if np.isscalar(P) else [float(v) * f for v in P]
+    R = spec.R_arg
+    out = Spec(spec.family, spec.typ, P2, R if (R is None or isinstance(R, tuple)) else np.array(R, dtype=float), spec.n_after, **par)
+    out.wvl = spec.wvl
+    return out
+
+
+def scaled_system_case(ctx, idx, family, way, form):
+    """The same single surface / two-surface system in other units: every length (curvature radius, decentre, aperture, Q-type
+    normalisation radius and coefficients, vertex position, ray origins) times f.  Intersections times f, directions identical;
+    the scaled trace is also judged by the ordinary pass oracle."""
+    from prysm.x.raytracing import spencer_and_murty as sm
+    rng = ctx.rng('scaled', idx)
+    n_amb = 1.0 if way != 'refr-out' else float(np.round(rng.uniform(1.45, 1.9), 4))
+    spec = make_spec(rng, family, way, form, n_amb, gentle=True)
+    f = SYSTEM_SCALES[idx % len(SYSTEM_SCALES)]
+    two = (idx // 4) % 2 == 1 and way != 'refl'
+    desc = {'wl': 'scaled-system', 'surface': spec.describe(), 'n_ambient': n_amb, 'factor': f, 'surfaces': 2 if two else 1, 'sub': idx,
+            'class': f'scale|{family}|{way}|{form}|x{f:g}|{"two-surfaces" if two else "one-surface"}'}
+    spk = _scaled_spec(spec, f)
+    if lib_call(ctx, f'C19/build/{family}', desc, build, spec) is _RAISED or lib_call(ctx, f'C19/build/{family}', desc, build, spk) is _RAISED \
+            or not check_R(ctx, spec, desc):
+        ctx.case(desc)
+        return
+    sag = lib_sag(spec)
+    Pl, Sl, C, _ = local_bundle(rng, spec, 3, 16 if not family.startswith('qtype') else 8, sag)
+    P, S = rp.to_global(Pl, Sl, spec.V, spec.R)
+    surfs, surfs_k, specs_k = [spec.surf], [spk.surf], [spk]
+    if two:
+        # a plane exit face a little downstream along the local axis (refracting back into the ambient medium)
+        ax = np.array([0.0, 0.0, 1.0]) if spec.R is None else np.asarray(spec.R)[2]
+        t = float(np.round(rng.uniform(2, 8), 2))
+        V2 = spec.V + t * ax
+        s2 = Spec('plane', 'refr', [float(v) for v in V2], None if spec.R is None else np.array(spec.R, dtype=float), n_amb, a=3 * spec.a)
+        s2k = _scaled_spec(s2, f)
+        if lib_call(ctx, 'C19/build/plane', desc, build, s2) is _RAISED or lib_call(ctx, 'C19/build/plane', desc, build, s2k) is _RAISED:
+            ctx.case(desc)
+            return
+        surfs.append(s2.surf); surfs_k.append(s2k.surf); specs_k.append(s2k)
+    gkey = 'C19/raytrace/scale'
+    with np.errstate(all='ignore'):
+        base = lib_call(ctx, gkey, desc, sm.raytrace, surfs, P.copy(), S.copy(), WVL, n_ambient=n_amb)
+        scaled = lib_call(ctx, gkey, desc, sm.raytrace, surfs_k, (P * f).copy(), S.copy(), WVL, n_ambient=n_amb)
+    if base is _RAISED or scaled is _RAISED:
+        ctx.case(desc)
+        return
+    ph, sh = np.asarray(base[0], dtype=float), np.asarray(base[1], dtype=float)
+    pk, sk = np.asarray(scaled[0], dtype=float), np.asarray(scaled[1], dtype=float)
+    sc = max(1.0, float(np.nanmax(np.abs(P))), float(np.max(np.abs(spec.V))))
+    decided = 0
+    for j in range(1, ph.shape[0]):
+        ok = np.isfinite(ph[j]).all(1) & np.isfinite(sh[j]).all(1)
+        # a ray lost in one of the two systems is the business of the pass oracle below (it labels the known losses: the r = 0
+        # singularity of a Q-type surface is hit exactly in one system and missed by 1e-16 in the other)
+        lost = ok & ~(np.isfinite(pk[j]).all(1) & np.isfinite(sk[j]).all(1))
+        if lost.any():
+            ctx.skip('scaled system: ray finite in one system and lost in the other (left to the pass oracle of the scaled system)', int(lost.sum()))
+        ok &= ~lost
+        if not ok.any():
+            continue
+        decided += int(ok.sum())
+        lab = 'down' if f < 1 else 'up'
+        ctx.close('scale.system', pk[j][ok], f * ph[j][ok], f'C19/raytrace/scale:{lab}/position', 'the same system described in other units '
+                  '(every length multiplied by one factor) is not traced to the scaled intersection points', dict(desc, surface_index=j - 1),
+                  rtol=0, atol=1e-9 * sc * f)
+        ctx.close('scale.system', sk[j][ok], sh[j][ok], f'C19/raytrace/scale:{lab}/direction', 'the same system described in other units '
+                  'sends the rays in other directions', dict(desc, surface_index=j - 1), rtol=0, atol=1e-9)
+    # ordinary oracle on the scaled system
+    n_cur = n_amb
+    for j, sp_ in enumerate(specs_k):
+        check_pass(ctx, sp_, pk[j], sk[j], pk[j + 1], sk[j + 1], n_cur, desc, j=j)
+        if sp_.typ == 'refr':
+            n_cur = sp_.n_after
+    ctx.case(desc, nontrivial=decided > 0)
+
+
+def special_rays_case(ctx, idx, family, way, form):
+    from prysm.x.raytracing import spencer_and_murty as sm
+    rng = ctx.rng('special-rays', idx)
+    n_amb = 1.0 if way != 'refr-out' else float(np.round(rng.uniform(1.45, 1.9), 4))
+    spec = make_spec(rng, family, way, form, n_amb, gentle=True)
+    desc = {'wl': 'special-rays', 'surface': spec.describe(), 'n_ambient': n_amb, 'sub': idx, 'class': f'special|{family}|{way}|{form}'}
+    if lib_call(ctx, f'C19/build/{family}', desc, build, spec) is _RAISED or not check_R(ctx, spec, desc):
+        ctx.case(desc)
+        return
+    sag = lib_sag(spec)
+    a = float(np.round(0.97 * spec.a, 3))      # the edge of the aperture the rays are aimed in (3 % inside the oracle's own bound, which is inclusive only to rounding)
+    T, Sd, dist = [], [], []
+    zax = [0.0, 0.0, 1.0]
+    # exactly along the axis: from whole distances, from the vertex plane itself, from very near and very far
+    for d_ in (float(int(rng.integers(1, 60))), 0.0, 1e-3, 1e3):
+        T.append([0.0, 0.0]); Sd.append(zax); dist.append(d_)
+    # axis-parallel rays exactly on the coordinate axes / diagonals at the aperture edge
+    q = a / math.sqrt(2.0)
+    for tx, ty in ((a, 0.0), (-a, 0.0), (0.0, a), (0.0, -a), (q, q), (-q, q), (q, -q), (-q, -q)):
+        T.append([tx, ty]); Sd.append(zax); dist.append(float(np.round(rng.uniform(5, 60), 1)))
+    # meridional rays (one direction cosine exactly zero) aimed at edge points and at the vertex
+    for ang in (-25.0, -10.0, 10.0, 25.0):
+        t_ = math.radians(ang)
+        T.append([a, 0.0]); Sd.append([math.sin(t_), 0.0, math.cos(t_)]); dist.append(float(np.round(rng.uniform(5, 40), 1)))
+        T.append([0.0, -a]); Sd.append([0.0, math.sin(t_), math.cos(t_)]); dist.append(float(np.round(rng.uniform(5, 40), 1)))
+        T.append([0.0, 0.0]); Sd.append([math.sin(t_), 0.0, math.cos(t_)]); dist.append(float(np.round(rng.uniform(5, 40), 1)))
+    # normal incidence away from the vertex (the ray travels along the surface normal at its target)
+    for _ in range(6):
+        rr_ = a * math.sqrt(float(rng.uniform(0.05, 1.0))); th = float(rng.uniform(0, 2 * np.pi))
+        tx, ty = rr_ * math.cos(th), rr_ * math.sin(th)
+        zx, zy, err = rp.gradient_richardson(sag, np.array([tx]), np.array([ty]), 0.02 * a, levels=4)
+        if not (np.isfinite(zx[0]) and np.isfinite(zy[0])):
+            continue
+        nrm = rp.normal_from_gradient(zx, zy)[0]
+        T.append([tx, ty]); Sd.append([float(v) for v in nrm * (1.0 if nrm[2] > 0 else -1.0)]); dist.append(float(np.round(rng.uniform(5, 40), 1)))
+    T = np.array(T); Sl = np.array(Sd); dist = np.array(dist)
+    z = sag(T[:, 0], T[:, 1])
+    Pl = np.stack([T[:, 0], T[:, 1], z], 1) - dist[:, None] * Sl
+    keep = np.isfinite(Pl).all(1)
+    Pl, Sl = Pl[keep], Sl[keep]
+    P, S = rp.to_global(Pl, Sl, spec.V, spec.R)
+    t = Tagged(ctx, '/special:axis-edge-normal-incidence')
+    with np.errstate(all='ignore'):
+        res = lib_call(t, f'C19/raytrace/{spec.typ}/batch', desc, sm.raytrace, [spec.surf], P.copy(), S.copy(), WVL, n_ambient=n_amb)
+    decided = 0
+    if res is not _RAISED:
+        ph = np.asarray(res[0], dtype=float); sh = np.asarray(res[1], dtype=float)
+        decided = check_pass(t, spec, P, S, ph[1], sh[1], n_amb, desc)
+        ctx.observe('special.rays', decided)
+    # grazing incidence on a plane mirror: decided by the closed form (the pass oracle excludes cos i < 0.3)
+    if family == 'plane' and way == 'refl':
+        ng = 12
+        inc = np.radians(np.concatenate([rng.uniform(75, 89, ng - 4), [89.5, 89.9, 80.0, 85.0]]))
+        az = rng.uniform(0, 2 * np.pi, ng)
+        az[-2:] = [0.0, np.pi / 2]                     # exactly in a coordinate plane
+        Sg = np.stack([np.sin(inc) * np.cos(az), np.sin(inc) * np.sin(az), np.cos(inc)], 1)
+        Sg[-2, 1] = 0.0
+        Sg[-1, 0] = 0.0
+        Sg = rp.unit(Sg)
+        tgt = np.stack([rng.uniform(-0.5, 0.5, ng) * a, rng.uniform(-0.5, 0.5, ng) * a, np.zeros(ng)], 1)
+        Pg_l = tgt - rng.uniform(2, 20, ng)[:, None] * Sg
+        Pg, Sgg = rp.to_global(Pg_l, Sg, spec.V, spec.R)
+        with np.errstate(all='ignore'):
+            res = lib_call(ctx, 'C19/raytrace/refl/special:grazing', desc, sm.raytrace, [spec.surf], Pg.copy(), Sgg.copy(), WVL, n_ambient=n_amb)
+        if res is not _RAISED:
+            want_l = Pg_l + (-Pg_l[:, 2] / Sg[:, 2])[:, None] * Sg
+            want_P, want_S = rp.to_global(want_l, Sg * np.array([1.0, 1.0, -1.0]), spec.V, spec.R)
+            path = np.abs(Pg_l[:, 2] / Sg[:, 2])
+            scg = max(1.0, float(np.max(np.abs(Pg))), float(np.max(path)), float(np.max(np.abs(spec.V))))
+            d2 = dict(desc, incidence_deg=[float(v) for v in np.degrees(inc)])
+            ctx.close('special.grazing-plane-mirror', np.asarray(res[0], dtype=float)[1], want_P, 'C19/hit/special:grazing/plane',
+                      'a ray at grazing incidence (75..89.9 deg) on a plane mirror is not traced to its intersection with the plane', d2,
+                      rtol=0, atol=1e-9 * scg)
+            ctx.close('special.grazing-plane-mirror', np.asarray(res[1], dtype=float)[1], want_S, 'C19/reflect/special:grazing/plane',
+                      'a ray at grazing incidence on a plane mirror is not mirrored about the plane normal', d2, rtol=0, atol=1e-9)
+            decided += ng
+    ctx.case(desc, nontrivial=decided > 0)
+
+
 # ================================================================================================ class F: foreign traffic
 FOREIGN_KINDS = ['rotation-matrices-edited-in-place', 'qpoly-other-orders', 'precision-32-consumers', 'polar-grids-edited']
 
@@ -2059,6 +2455,19 @@ def _run(ctx):
                 i += 1
                 if ctx.mine(i):
                     foreign_case(ctx, i, kind, fam)
+    # hardening pass 3: batch orders (class K), scaled systems (class G), special rays (class H)
+    for i in range(ctx.pick(8, 320)):
+        if ctx.mine(i):
+            batch_order_case(ctx, i)
+    combos = [(f, w, fo) for f in FAMILIES for w in WAYS for fo in FORMS]
+    for i in range(ctx.pick(40, 2400)):
+        if ctx.mine(i):
+            f, w, fo = combos[(i * 7) % len(combos)]
+            scaled_system_case(ctx, i, f, w, fo)
+    for i in range(ctx.pick(40, 2400)):
+        if ctx.mine(i):
+            f, w, fo = combos[(i * 11 + 3) % len(combos)] if i >= 8 else ('plane', 'refl', FORMS[i % 4])
+            special_rays_case(ctx, i, f, w, fo)
     reps = ctx.pick(8, 150)
     combos = [(f, w, fo) for f in FAMILIES for w in WAYS for fo in FORMS]
     i = -1
